@@ -212,8 +212,23 @@ pub fn run(ctx: &Ctx) -> Rep {
             let _ = k;
         }
     });
-    let (rf, xsf) = merge_states(sf);
+    let (rf, mut xsf) = merge_states(sf);
     rep.merge(rf);
+    if !ctx.smoke() {
+        // every value whose set bits fit in a 16-bit window (every byte value at every byte position ...)
+        let sw = par_run(ctx, 49, mk, |st, off| {
+            for p in 1..=0xFFFFu64 {
+                if off == 0 || p & 1 == 1 {
+                    check(st, p << off);
+                    st.rep.distinct += 1;
+                }
+            }
+            st.rep.add("values_within_a_16_bit_window", if off == 0 { 65535 } else { 32768 });
+        });
+        let (rw, xsw) = merge_states(sw);
+        rep.merge(rw);
+        xsf.extend(xsw);
+    }
     rep.add("field_structured_values", n_struct as u64);
     let s = par_run(ctx, chunks, mk, |st, ch| {
         let mut rng = Rng::new(seed, 0xC16_0000 + ch as u64);
